@@ -302,6 +302,7 @@ theorem stepF_stepCore (s : S) (op : Op) : StepF s (stepCore s op) := by
       split
       · exact stepF_exit s a
       · exact StepF.refl s
+  | handleAt a act d => exact (stepF_handle s a act).trans (StepF.frame rfl rfl)
 
 /-! ### the invariant -/
 
